@@ -372,10 +372,16 @@ def _strip_doc(body):
     return body
 
 
+_REF_CACHE = None
+
+
 class Repo:
     """Parsed view of the repository's package sources (tests excluded)."""
 
-    def __init__(self, root="/repo", overrides=None):
+    def __init__(self, root="/repo", overrides=None, is_reference=False):
+        self.is_reference = is_reference
+        self.substituted = {}      # qual -> note, functions analysed in their reference form (proven equivalent)
+        self.restructured = {}     # qual -> why the current form could not be proven equivalent to the reference form
         self.root = root
         self.pkgdir = os.path.join(root, PKG)
         self.modules = {}
@@ -415,6 +421,42 @@ class Repo:
         with open(kf, encoding="utf-8") as fh:
             self.known_funcs = {l.strip() for l in fh if l.strip() and not l.startswith("#")}
         self._link_dispatch()
+        if not is_reference and not os.environ.get("VERIF_NO_REFERENCE"):
+            self._use_reference_forms()
+
+    def _use_reference_forms(self):
+        """Functions whose current form differs from the reference form (the one the rules were written for) but is proven
+        equivalent to it (sa/equiv.py) are analysed in the reference form."""
+        refroot = os.path.join(os.path.dirname(os.path.dirname(os.path.abspath(__file__))), "reference")
+        if not os.path.isdir(os.path.join(refroot, PKG)):
+            return
+        global _REF_CACHE
+        if _REF_CACHE is None:
+            _REF_CACHE = Repo(refroot, is_reference=True)
+        ref = _REF_CACHE
+        self.ref = ref
+        differing = []
+        for q, fi in self.funcs.items():
+            rf = ref.funcs.get(q)
+            if rf is None or fi.parent is not None:
+                continue
+            if ast.dump(fi.node) != ast.dump(rf.node):
+                differing.append(q)
+        if not differing:
+            return
+        from . import equiv
+        for q in differing:
+            try:
+                ok, note = equiv.equivalent(self, ref, q)
+            except Exception as e:      # noqa: BLE001 - the safety net must never break a check
+                ok, note = False, f"equivalence check failed: {type(e).__name__}: {e}"
+            if ok:
+                self.substituted[q] = note
+            else:
+                self.restructured[q] = note
+        for q in self.substituted:
+            self.funcs[q].node = ref.funcs[q].node
+            self.funcs[q].module = ref.funcs[q].module
 
     def is_new_function(self, qual):
         """a function the rules do not know (introduced after they were written, typically by extracting a helper)"""
@@ -774,7 +816,10 @@ class Repo:
 
     def stats(self):
         return {"files": self.n_files, "classes": len(self.classes), "functions": len(self.funcs),
-                "digest": self.digest[:16]}
+                "digest": self.digest[:16],
+                "analysed_in_reference_form": dict(sorted(self.substituted.items())),
+                "differs_from_reference_form": dict(sorted(self.restructured.items())),
+                "helpers_inlined": sorted(set(getattr(self, "inlined", [])))}
 
 
 CLASS_OF = {"Field": "field.Field", "Mesh": "mesh.Mesh", "Region": "region.Region",
